@@ -3,7 +3,7 @@ import itertools
 import random
 
 from vlib import gt
-from vlib.par import pmap
+from vlib.par import pmap, timeout_failure
 
 PROPERTY = 'C05'
 LEVEL = 'other'
@@ -182,13 +182,13 @@ def bounded(tier, seed, repo_root):
     for (a, b) in PAIRS:
         for s in seqs + longer:
             jobs.append((a, b, gt.OPTION_COMBOS[rnd.randrange(9)], s, rnd.random() < 0.5))
-    res = pmap(_drive, jobs, repo_root)
+    res = pmap(_drive, jobs, repo_root, job_timeout=60, on_timeout=timeout_failure('C05'))
     fails = [f for fs in res for f in fs]
     from vlib import docs as D
     docs = D.enum_docs(4, atoms=[1, "ab", None], keys=['a', 'b'])
     pj = [(rnd.choice(docs), rnd.choice(docs), gt.OPTION_COMBOS[rnd.randrange(9)]) for _ in range(1500 if tier == 'quick' else 15000)]
     pj += [(a, b, o) for (a, b) in PAIRS for o in gt.OPTION_COMBOS]
-    for fs in pmap(_print_job, pj, repo_root):
+    for fs in pmap(_print_job, pj, repo_root, job_timeout=60, on_timeout=timeout_failure('C05')):
         fails.extend(fs)
     return [{
         'name': 'C05.interleavings', 'bound': f"{len(PAIRS)} nested document pairs x all operation sequences over {OPS} up to "
